@@ -164,6 +164,11 @@ def run(spec, ctx):
         d = dirs.PelDir(os.path.join(root, "d%d" % i))
         ents = dirs.gen_dir_model(rng, u, rng.randrange(4, 24), bmc_style=True)
         d.extend(ents)
+        if i % 3 == 1:
+            # some logs present as symbolic links to files kept elsewhere: selected by the same rules as the others
+            import shutil
+            shutil.rmtree(os.path.join(root, "store"), ignore_errors=True)
+            ctx.count("cli.symlinked_pels", dirs.symlink_entries(rng, ents, os.path.join(root, "store"), 0.4))
         excl = os.path.join(root, "excl%d.txt" % i)
         with open(excl, "w") as f:
             f.write("NOTHINGMATCHES\n")
